@@ -191,12 +191,24 @@ func Gen(t *rapid.T) Plan {
 			ps.Conc = rapid.IntRange(1, 4).Draw(t, "conc")
 			prim := sim.InSpec{NS: "n1", Typ: rapid.SampledFrom(types).Draw(t, "ptyp"), Kind: controller.InputQPrimary}
 
-			if rapid.IntRange(0, 4).Draw(t, "pbyid") == 0 {
+			if rapid.IntRange(0, 3).Draw(t, "pbyid") == 0 {
 				prim.ID = rapid.SampledFrom(ids).Draw(t, "pid")
 			}
 
 			ps.Ins = append(ps.Ins, prim)
 			ps.Mapper = map[string][]string{}
+			primIDs := []string{prim.ID}
+
+			// a second primary input on the same type: another id
+			if prim.ID != "" && rapid.Bool().Draw(t, "psecond") {
+				second := prim
+				second.ID = rapid.SampledFrom(ids).Draw(t, "pid2")
+
+				if second.ID != prim.ID {
+					ps.Ins = append(ps.Ins, second)
+					primIDs = append(primIDs, second.ID)
+				}
+			}
 
 			n := rapid.IntRange(0, 3).Draw(t, "nmapped")
 			for j := 0; j < n; j++ {
@@ -209,7 +221,7 @@ func Gen(t *rapid.T) Plan {
 
 				same := false
 
-				for _, e := range ps.Ins[1:] {
+				for _, e := range ps.Ins[len(primIDs):] {
 					if e.Typ == in.Typ {
 						same = true // two mapped inputs of different kinds on one type: qruntime matches by type only
 					}
@@ -228,7 +240,7 @@ func Gen(t *rapid.T) Plan {
 						var f []string
 
 						for _, x := range targets {
-							if x == prim.ID {
+							if slices.Contains(primIDs, x) {
 								f = append(f, x)
 							}
 						}
